@@ -548,6 +548,29 @@ class DeepInliner(Inliner):
         self.inlined.append(callee.fq)
         return _loc(new, call)
 
+    def _genexp_calls(self, ctx: FuncInfo, s: ast.stmt, origin: dict) -> None:
+        """`for m in self._matching(n, D):` / `next(self._matching(n, D), None)` / `list(_matching(n, D))`: the call of a one-loop generator
+        helper becomes the generator expression it stands for (loop fusion and the selection rules then read it)."""
+        outer = self
+
+        def conv(e: ast.AST) -> ast.AST:
+            ge = outer._gen_call_as_genexp(ctx, e, origin) if isinstance(e, ast.Call) else None
+            return ge if ge is not None else e
+
+        if isinstance(s, (ast.For, ast.AsyncFor)):
+            s.iter = conv(s.iter)
+            return
+        if not isinstance(s, (ast.Assign, ast.AnnAssign, ast.Return, ast.Expr, ast.If)):
+            return
+        root = s.test if isinstance(s, ast.If) else s.value
+        if root is None:
+            return
+        for c in ast.walk(root):
+            if isinstance(c, ast.Lambda):
+                continue
+            if isinstance(c, ast.Call) and isinstance(c.func, ast.Name) and c.func.id in ("next", "list", "tuple", "set", "frozenset", "sorted", "any", "all", "iter", "max", "min", "dict") and c.args and isinstance(c.args[0], ast.Call):
+                c.args[0] = conv(c.args[0])
+
     def _split_tuple_assign(self, s: ast.stmt) -> list[ast.stmt] | None:
         """`a, b = (x, y)`  ->  `a = x; b = y`  (no target is read by the values)"""
         if not (isinstance(s, ast.Assign) and len(s.targets) == 1 and isinstance(s.targets[0], (ast.Tuple, ast.List)) and isinstance(s.value, (ast.Tuple, ast.List))):
@@ -673,6 +696,8 @@ class DeepInliner(Inliner):
                 ge = self._gen_call_as_genexp(ctx, s.value.args[0], origin)
                 if ge is not None:
                     s.value.args[0] = ge
+            # a simple generator helper (`for c in D: if P: yield E`) consumed by a loop / next() / list() / any(): likewise
+            self._genexp_calls(ctx, s, origin)
             # `kwargs["labels"] = dict(<pairs>)` / `return dict(<pairs>)`: the mapping gets a local of its own (and is unrolled there)
             if isinstance(s, (ast.Assign, ast.Return)) and s.value is not None and isinstance(_as_dictcomp(s.value), ast.DictComp) and not isinstance(s.value, ast.DictComp):
                 plain = isinstance(s, ast.Assign) and len(s.targets) == 1 and isinstance(s.targets[0], ast.Name)
